@@ -231,7 +231,15 @@ static Check run_one(const MSet& s, YR_RULES* rules, int flags, int k, int reply
 
 static YR_RULES* compile_set(const MSet& s, std::string* err) {
   CompileSpec cs; for (auto& src : s.sources) cs.sources.push_back({src.ns == "default" ? "" : src.ns, source_text(s, src)});
-  CompileResult cr = compile_rules(cs); if (!cr.rules && err) *err = cr.messages; return cr.rules;
+  // an integer external named like the first built-in module (in module-table order) that this set does not import:
+  // externals and module structures share the scanner's object table, and the protocol must not notice
+  { static const char* TABLE[] = {"tests", "pe", "elf", "math", "time", "console", "string", "hash"};
+    for (const char* m : TABLE) { bool imported = false; for (auto& src : s.sources) for (auto& im : src.imports) if (im == m) imported = true; if (!imported) { cs.externals.push_back({m, 'i', 1, 0, ""}); break; } } }
+  CompileResult cr = compile_rules(cs); if (!cr.rules && err) *err = cr.messages;
+  // in every third set each rule is disabled and enabled again before anything is scanned: a round trip through
+  // yr_rule_disable / yr_rule_enable must leave the rule as it was (private, global, ...)
+  if (cr.rules) { Hash64 h; for (auto& src : s.sources) h.add(source_text(s, src)); if (h.h % 3 == 0) { YR_RULE* rule; yr_rules_foreach(cr.rules, rule) yr_rule_disable(rule); yr_rules_foreach(cr.rules, rule) yr_rule_enable(rule); } }
+  return cr.rules;
 }
 
 static const int FLAGSETS[4] = {0, SCAN_FLAGS_REPORT_RULES_MATCHING, SCAN_FLAGS_REPORT_RULES_NOT_MATCHING, SCAN_FLAGS_REPORT_RULES_MATCHING | SCAN_FLAGS_REPORT_RULES_NOT_MATCHING};
